@@ -28,4 +28,4 @@ Proof. exact skip_complete. Qed.
    makes the value equal to serde_json's correctly rounded one *)
 Theorem float_fast_path_guards :
   2 ^ G_CL_SHIFT <= 2 ^ 53 /\ (2 ^ 64 - 1) * 10 ^ (G_NF_HI - 1) < 2 ^ 1024 - 2 ^ 970 /\ 10 ^ (- (G_NF_LO + 1)) <= 2 ^ 1022.
-Proof. pose proof clinger_guard as C. pose proof normal_fast_guard as N. intuition. Qed.
+Proof. exact float_fast_path_guards_ok. Qed.
